@@ -434,7 +434,7 @@ func checkFrameHelpers(p *load.Program, r *kit.Report, rule string) {
 		for _, e := range edgesOf(gs, false) {
 			rr := kit.Reach(f, []kit.Pt{kit.EdgeStart(e)}, kit.Opts{})
 			for _, ret := range kit.Returns(f) {
-				if rr.Has(ret) && kit.ReturnErrClass(ret) != kit.ErrNonNil {
+				if rr.Has(ret) && rr.ErrClass(ret) != kit.ErrNonNil {
 					bad = "a foreign magic is not an error"
 				}
 			}
@@ -473,7 +473,7 @@ func checkFrameHelpers(p *load.Program, r *kit.Report, rule string) {
 		} else {
 			pre := kit.Reach(f, []kit.Pt{kit.Entry(f)}, kit.Opts{StopAt: kit.InstrSet(consuming)})
 			for _, ret := range kit.Returns(f) {
-				if pre.Has(ret) && kit.ReturnErrClass(ret) != kit.ErrNonNil {
+				if pre.Has(ret) && pre.ErrClass(ret) != kit.ErrNonNil {
 					bad = "readMessage can succeed without reading the payload"
 				}
 			}
@@ -481,7 +481,7 @@ func checkFrameHelpers(p *load.Program, r *kit.Report, rule string) {
 				for _, e := range edgesOf(errNilGuards(f, cc), false) {
 					rr := kit.Reach(f, []kit.Pt{kit.EdgeStart(e)}, kit.Opts{})
 					for _, ret := range kit.Returns(f) {
-						if rr.Has(ret) && kit.ReturnErrClass(ret) != kit.ErrNonNil {
+						if rr.Has(ret) && rr.ErrClass(ret) != kit.ErrNonNil {
 							bad = "a short payload read is not an error"
 						}
 					}
@@ -514,7 +514,7 @@ func checkFrameHelpers(p *load.Program, r *kit.Report, rule string) {
 				for _, e := range edgesOf(errNilGuards(f, c), false) {
 					rr := kit.Reach(f, []kit.Pt{kit.EdgeStart(e)}, kit.Opts{})
 					for _, ret := range kit.Returns(f) {
-						if rr.Has(ret) && kit.ReturnErrClass(ret) != kit.ErrNonNil {
+						if rr.Has(ret) && rr.ErrClass(ret) != kit.ErrNonNil {
 							bad = "a failed read is not reported"
 						}
 					}
@@ -576,7 +576,7 @@ func checkFrameHelpers(p *load.Program, r *kit.Report, rule string) {
 			}
 			rr := kit.Reach(f, starts, kit.Opts{StopAt: kit.InstrSet(stops...)})
 			for _, ret := range kit.Returns(f) {
-				if rr.Has(ret) && kit.ReturnErrClass(ret) != kit.ErrNonNil {
+				if rr.Has(ret) && rr.ErrClass(ret) != kit.ErrNonNil {
 					bad = "a message without a handler can be skipped without discarding header.Length bytes: " + rr.PathTo(ret, p.Pos)
 				}
 			}
